@@ -281,5 +281,5 @@ def _check(case):
 
 
 SUBCHECKS = [
-    HypSub("first_order", _case, _check, _classify, budget={"quick": 480, "thorough": 16000}),
+    HypSub("first_order", _case, _check, _classify, budget={"quick": 1200, "thorough": 24000}),
 ]
